@@ -19,6 +19,11 @@ import (
 // packet (see nts.MaxPacketLen).
 const MaxCookieLen = 896
 
+// MaxStoredCookies is the maximum number of unused cookies a Fetcher keeps
+// (see numStoredCookies in package nts: a request asks for as many cookies
+// as are missing from that number).
+const MaxStoredCookies = 8
+
 var (
 	errCookieLen   = errors.New("unexpected NTS-KE meta data: cookie too long")
 	errNoCookies   = errors.New("unexpected NTS-KE meta data: no cookies")
@@ -133,11 +138,15 @@ func (f *Fetcher) FetchData(ctx context.Context) (Data, error) {
 	return data, nil
 }
 
-// StoreCookie stores a cookie byte slice and appends it to the cached data.
+// StoreCookie stores a cookie byte slice and appends it to the cached data
+// unless MaxStoredCookies cookies are cached already.
 func (f *Fetcher) StoreCookie(cookie []byte) {
 	f.mu.Lock()
 	defer f.mu.Unlock()
 	if len(cookie) > MaxCookieLen {
+		return
+	}
+	if len(f.data.Cookie) >= MaxStoredCookies {
 		return
 	}
 	f.data.Cookie = append(f.data.Cookie, cookie)
